@@ -1,7 +1,7 @@
 ENGINES = [
     {"name": "crashmc", "path": "mc/crashmc.py", "serves_properties": ["C07"],
      "kind_free_text": "crash-point enumeration over the syscall log (strace) of the real writer: all byte prefixes of the write sequence, recovery and restart executed on the real library"},
-    {"name": "gridmc", "path": "mc/checks", "serves_properties": ["C02", "C12", "C18", "C20"],
+    {"name": "gridmc", "path": "mc/checks", "serves_properties": ["C02", "C11", "C12", "C18", "C20"],
      "kind_free_text": "exhaustive enumeration of finite option lattices / member lists crossed with small branch-covering data alphabets, each point compared with an oracle independent of REBOUND"},
     {"name": "histmc", "path": "mc/histmc.py", "serves_properties": ["C05", "C06", "C08", "C09", "C13", "C14", "C15", "C17"],
      "kind_free_text": "explicit-state breadth-first exploration of operation histories on the real library object (state = history, canonical digest de-duplication, reference-model oracle on every transition)"},
@@ -10,6 +10,14 @@ NOTES = ("All checks explore the real implementation rebuilt from /repo's workin
          "so traces_validated_against_impl equals the number of executed transitions. known_findings.json lists repaired defects (fixed:) and recorded ones.")
 NOT_APPLICABLE = {}
 CHECKS = {
+    "C11": {
+        "engine": "gridmc", "category": "exploration",
+        "technique": "exhaustive enumeration of an element lattice (branch-covering values for e, inc, angles, anomaly kinds), of all argument-name subsets up to size 4 through both front ends, and of an e x M lattice for the anomaly functions; oracle = 40-digit evaluation of the textbook map and of Kepler's equation",
+        "text": "Anomaly functions on 15 eccentricities x 18 mean anomalies (incl. hyperbolic M=0, +-1e-300, +-1e3): Kepler's equation, E->f relation, ranges, C==Python. 93k element cases (quick): G x primary (at rest / displaced and moving, m 1 / 1e-3) x m x (e,a) in {0,1e-10,1e-4,0.1,0.9,1-1e-6,1+1e-6,1.5,10} x 10 inclinations (0, 1e-10, 2e-8, pi/2+-1e-9, pi-2e-8, pi) x Omega x omega|pomega x {f,M,E,l,theta,T} x values: "
+                "forward map vs 40-digit reference with a conditioning-based tolerance, no NaN; Cartesian->elements: ranges, the returned (a,e,inc,Omega,omega,f) must rebuild the state, defining relations (pomega, theta, l, n^2a^3, h^2, Kepler's equation, T incl. hyperbolic sign, Pal definitions). "
+                "All 17.9k subsets of <=4 of the 26 argument names through reb_particle_from_fmt (variadic, via ctypes) and Particle(): same accept/reject decision and same particle; 10 invalid value combinations rejected by both.",
+        "note": "Reverse-map tolerances allow the sqrt(u) accuracy of acos-based angles and the 1/(1+e cos f) conditioning near hyperbolic asymptotes; Pal relations are compared for prograde orbits only.",
+    },
     "C20": {
         "engine": "gridmc", "category": "exploration",
         "technique": "exhaustive enumeration of finite spaces: all unit triples and conversion chains, rotation constructors on a direction/angle lattice incl. degenerate pairs, frame shifts x variational orders, simulation arithmetic; oracles independent of REBOUND (IAU/CODATA table, Rodrigues formula, finite differences)",
